@@ -627,3 +627,19 @@ async fn remote<P: Protocol>(
         router_tx.send((connection_id, message)).ok();
     }
 }
+
+/// Opaque handle on the will-handler table shared by the connections of one broker
+#[cfg(rumqtt_verif)]
+#[derive(Clone, Default)]
+pub struct VerifWillHandlers(Arc<Mutex<HashMap<String, Sender<AwaitingWill>>>>);
+
+#[cfg(rumqtt_verif)]
+pub async fn verif_remote<P: Protocol>(
+    config: Arc<ConnectionSettings>,
+    router_tx: Sender<(ConnectionId, Event)>,
+    stream: Box<dyn N>,
+    protocol: P,
+    will_handlers: VerifWillHandlers,
+) {
+    remote(config, None, router_tx, stream, protocol, will_handlers.0).await
+}
